@@ -217,6 +217,14 @@ theorem body_17 (d d' : Dict) (m : Bytes) (h : conv_17_18 d = some d')
   unfold conv_17_18 at h
   exact dget_dupd_ne _ _ _ _ _ h2 h
 
+theorem body_18 (d d' : Dict) (m : Bytes) (h : conv_18_19 d = some d')
+    (h2 : (s "client_conn" == m) = false) (h3 : (s "server_conn" == m) = false) :
+    dget d' m = dget (setVersion d 19) m := by
+  unfold conv_18_19 at h
+  simp only [Option.bind_eq_bind, Option.bind_eq_some_iff, Option.pure_def, Option.some.injEq] at h
+  obtain ⟨cc, -, sc, -, cc', -, sc', -, rfl⟩ := h
+  rw [dget_dset_ne _ _ _ _ h3, dget_dset_ne _ _ _ _ h2]
+
 theorem body_19 (d d' : Dict) (m : Bytes) (h : conv_19_20 d = some d')
     (h2 : (s "client_conn" == m) = false) (h3 : (s "server_conn" == m) = false) :
     dget d' m = dget (setVersion d 20) m := by
